@@ -57,6 +57,21 @@ def gen(rng, tier):
         c = camx.gen_uamiv_at(rng, y, j, h, with_etflag=False, tstep=1)
         c.update(kind='write', vdtype='f')
         out.append(c)
+    # files that span the new year 1999 -> 2000 (two-digit years 99365 followed by 00001), read by the library: gridded and
+    # meteorological
+    c = camx.gen_uamiv_at(rng, 1999, 365, 22, tstep=1)
+    while len(c['tflag']) < 3:
+        c = camx.gen_uamiv_at(rng, 1999, 365, 22, tstep=1)
+    c['kind'] = 'read'
+    out.append(c)
+    for fmt in ('temperature', 'humidity'):
+        c = S.gen(rng, fmt=fmt, longspan=False)
+        c['flags'] = [[99365, 2200], [99365, 2300], [1, 0], [1, 100]][:max(3, len(c['flags']))]
+        per = len(c['data'][0])
+        c['data'] = [[[camx.rand_f32_bits(rng) for _ in range(c['nx'] * c['ny'])] for _ in range(per)] for _ in c['flags']]
+        c['kind'] = 'sread'
+        c['vdtype'] = 'f'
+        out.append(c)
     for name in camx.NAMES:
         # every NAME with several layers and several steps written on every run (3-D gridded emissions included)
         c = camx.gen_uamiv(rng)
